@@ -64,6 +64,9 @@ Section Oracles.
   Theorem C01_lost_substitution : forall c k ss fs ks, let t := T k ss fs ks in
     substitutions_lost (attr_d "value" t) t = true -> In Ask (r_wp (ev t) false c).
   Proof. exact (lost_substitution_asks simple astr mredir cdres injrisk rulematch). Qed.
+  Theorem C01_inert_opener : forall c k ss fs ks, let t := T k ss fs ks in
+    nonempty (children "parts" t) = true -> has_inert_opener (attr_d "value" t) = true -> In Ask (r_wp (ev t) true c).
+  Proof. exact (inert_opener_asks simple astr mredir cdres injrisk rulematch). Qed.
   Theorem C01_unclosed_arith_cmd : forall c ss fs ks, let t := T $"arith-cmd" ss fs ks in
     unclosed_arith (attr_d "raw_content" t) = true -> walk c t <> Allow.
   Proof. exact (unclosed_arith_cmd_asks simple astr mredir cdres injrisk rulematch). Qed.
@@ -78,6 +81,7 @@ Section Oracles.
   Proof. exact (approved_sets_no_execution_var simple astr mredir cdres injrisk rulematch). Qed.
 End Oracles.
 Print Assumptions C01_execution_variables.
+Print Assumptions C01_inert_opener.
 Print Assumptions C01_unclosed_arith_word.
 Print Assumptions C01_unclosed_arith_cmd.
 Print Assumptions C01_lost_substitution.
